@@ -166,6 +166,31 @@ def table_object(h: H, st: Store):
                  table_path=h.str("table_path"))
 
 
+def install_count_contracts(h: H, g: dict):
+    """COUNT-CHECK plumbing shared by the consumers of the manifest readers: the expectation functions are applied at their
+    contracts (verified by units HELPER/recorded_manifest_count and HELPER/expected_entry_count); each returns one fixed optional
+    integer per object, remembered so that the reader stubs can check they receive THAT value for THAT object."""
+    exp = g.setdefault("exp", {})
+
+    def mk(tag):
+        def contract(I, fv, args, kwargs):
+            obj = args[-1]
+            k = (tag, id(obj))
+            if k not in exp:
+                exp[k] = SOpt(I.ctx.fresh_bool(f"{tag}_unrecorded"), SInt(I.ctx.fresh_int(f"{tag}_recorded")))
+                g.setdefault("exp_objs", {})[k] = obj
+            return exp[k]
+        return contract
+    h.reg.contracts["file_manager:recorded_manifest_count"] = mk("manifests")
+    h.reg.contracts["file_manager:FileManager.expected_entry_count"] = mk("entries")
+
+
+def expectation_passed(g: dict, tag: str, obj, kwargs: dict, kwname: str):
+    """python bool: the reader was given exactly the expectation recorded for obj (the object that references the file)"""
+    want = g.get("exp", {}).get((tag, id(obj)))
+    return want is not None and kwargs.get(kwname) is want
+
+
 def data_file(h: H, name="f", checksum="sym"):
     c = h.ctx
     if checksum == "sym":
@@ -808,10 +833,14 @@ def h_get_all_data_files(mode: str):
                                           "snapshots": TheoryObj("symiter", fields={"mk": mk_snap, "witnesses": []})})
         h.reg.contracts["metadata_manager:MetadataManager.refresh"] = refresh
         cur = {}
+        install_count_contracts(h, g)
 
         def read_list(I, fv, args, kwargs):
-            key = st.key(I, args[-1])
+            key = st.key(I, args[1])
             g["list_reads"].append(key)
+            h.ensure("COUNT-CHECK:manifest-list-read-with-the-manifest-count-its-snapshot-records",
+                     expectation_passed(g, "manifests", snap, kwargs, "expected_manifests") or
+                     any(expectation_passed(g, "manifests", o, kwargs, "expected_manifests") for o in g.get("exp_objs", {}).values()))
             if not I.ctx.decide(z3.Select(st.ex, key), "list-exists"):
                 raise PyRaise(SExc("FileNotFoundError", origin="read_manifest_list_file: missing", fields={"missing": True}))
             if faults and I.ctx.flip("list-reader-fault"):
@@ -822,13 +851,16 @@ def h_get_all_data_files(mode: str):
                 mp = SStr(I2.ctx.fresh_str("manifest_path"))
                 cur["manifest"] = mp
                 g["man_reads"] = 0
-                return SObj("ManifestFile", {"manifest_path": mp})
+                cur["manifest_obj"] = SObj("ManifestFile", {"manifest_path": mp})
+                return cur["manifest_obj"]
             return TheoryObj("symiter", label="MANIFESTS", fields={"mk": mk})
         h.reg.contracts["file_manager:FileManager.read_manifest_list_file"] = read_list
 
         def read_manifest(I, fv, args, kwargs):
-            key = st.key(I, args[-1])
+            key = st.key(I, args[1])
             g["man_reads"] += 1
+            h.ensure("COUNT-CHECK:manifest-read-with-the-entry-count-its-list-entry-records",
+                     expectation_passed(g, "entries", cur.get("manifest_obj"), kwargs, "expected_entries"))
             cur["manifest_key"] = key
             if not I.ctx.decide(z3.Select(st.ex, key), "manifest-exists"):
                 raise PyRaise(SExc("FileNotFoundError", origin="read_manifest_file: missing", fields={"missing": True}))
